@@ -105,6 +105,10 @@ class TableFamily(Family):
             return {"C09", "C01", "C10"}
         if op == "w.prefix":
             return {"C09"}
+        if op == "tool.dump":
+            return {"C01"}
+        if op == "tool.info":
+            return {"C10"}
         if op == "r.openw":
             return {"C10", "C01"}
         if op in ("r.next", "r.seek", "r.it"):
